@@ -47,9 +47,14 @@ def build(t, intraday, registry):
     import pandas as pd
     from pyg_base import Dict
     if isinstance(t, dict) and 'ts' in t:
-        key = tuple(t['ts'])
+        regular = bool(t.get('freq')) and len(t['ts']) >= 1 and list(t['ts']) == list(range(t['ts'][0], t['ts'][0] + t['freq'] * len(t['ts']), t['freq']))
+        key = tuple(t['ts']) + (('freq', t['freq']) if regular else ())
         if t.get('share_index') and key in registry.setdefault('idx', {}):
             idx = registry['idx'][key]      # the very same index object as an earlier series (as in c = a * 2)
+        elif regular:
+            # a regular index that knows its own frequency (what pd.date_range / resample / asfreq give): two of them may share the frequency and still be out of phase
+            idx = pd.date_range(stamp(t['ts'][0], intraday), periods=len(t['ts']), freq=datetime.timedelta(hours=t['freq']) if intraday else datetime.timedelta(days=t['freq']))
+            registry.setdefault('idx', {})[key] = idx
         else:
             idx = pd.DatetimeIndex([stamp(i, intraday) for i in t['ts']])
             registry.setdefault('idx', {})[key] = idx
@@ -321,7 +326,13 @@ def run_presync(case, ctx):
         ctx.cls('presync:variadic_function')
     form = case.get('form', 'ctor')
     call_kw = {}
-    if form == 'ctor':
+    if form == 'ctor' and case.get('fill_off_at_call'):
+        # decorated with a fill method, the call says method = None: no fill for this call
+        dec = presync(probe, index={'ij': 'inner', 'oj': 'outer', 'lj': 'left', 'rj': 'right'}.get(policy, 'inner'), method=case['fill_off_at_call'], columns=False)
+        call_kw = {'method': None}
+        method = None
+        ctx.cls('presync:fill_switched_off_at_call')
+    elif form == 'ctor':
         dec = presync(probe, index={'ij': 'inner', 'oj': 'outer', 'lj': 'left', 'rj': 'right'}.get(policy, 'inner'), method=method, columns=False)
     elif policy == 'explicit':
         dec = None
@@ -376,6 +387,45 @@ def run_presync(case, ctx):
     _classify(ctx, case, specs, index, method)
 
 
+def run_presync_cols(case, ctx):
+    """a presync-decorated function of two or three multi-column frames: it is applied column by column, the columns paired BY LABEL
+    (the common column set), whatever order each frame lists them in; rows on the joint (inner) index"""
+    import pandas as pd
+    from pyg_base import presync
+    reg = {'ts': [], 'leaves': []}
+    frames = [build(t, case['intraday'], reg) for t in case['frames']]
+    before = snap_ts(reg)
+    coef = [1.0, -2.0, 0.5][:len(frames)]
+
+    def f(a, b, c=None):
+        return a * coef[0] + b * coef[1] + (0 if c is None else c * coef[2])
+    dec = presync(f)
+    st, res = ctx.call(dec, *frames) if not case.get('by_kw') else ctx.call(dec, frames[0], b=frames[1], **({'c': frames[2]} if len(frames) > 2 else {}))
+    common = sorted(set.intersection(*[set(fr.columns) for fr in frames]))
+    idx = frames[0].index
+    for fr in frames[1:]:
+        idx = idx.intersection(fr.index)
+    ctx.ev('column_alignment')
+    ctx.cls('presync_columns:%s' % ('same_set_permuted' if len({tuple(sorted(fr.columns)) for fr in frames}) == 1 and len({tuple(fr.columns) for fr in frames}) > 1 else
+                                   'same_order' if len({tuple(fr.columns) for fr in frames}) == 1 else 'different_sets'))
+    if st != 'ok' or not isinstance(res, pd.DataFrame):
+        ctx.fail('column_alignment', 'presync(f)(frames with columns %s) -> %s %r' % ([list(fr.columns) for fr in frames], st, res))
+        return
+    if sorted(res.columns) != common or list(res.index) != list(idx):
+        ctx.fail('column_alignment', 'presync(f)(frames with columns %s): result columns %s index %s; common columns %s, joint index %s' % ([list(fr.columns) for fr in frames], list(res.columns), list(res.index), common, list(idx)))
+        return
+    for c in common:
+        exp = sum(fr[c].reindex(idx) * k for fr, k in zip(frames, coef))
+        got = res[c]
+        bad = [(t, g, e) for t, g, e in zip(idx, got.values.tolist(), exp.values.tolist()) if not ((isn(g) and isn(e)) or g == e)]
+        if bad:
+            ctx.fail('column_alignment', 'presync(f)(frames with columns %s): column %r holds %s at %s, pairing the columns by label gives %s' % ([list(fr.columns) for fr in frames], c, bad[0][1], bad[0][0], bad[0][2]))
+            return
+    ctx.check('inputs_unmodified', all(a[0] == b[0] and same(a[1], b[1]) and a[2] == b[2] for a, b in zip(before, snap_ts(reg))), lambda: 'presync modified its inputs')
+    if len({tuple(fr.columns) for fr in frames}) > 1:
+        ctx.mark_nontrivial(case)
+
+
 def run_numpy(case, ctx):
     from pyg_base import df_sync, df_reindex, df_index
     arrs = [np.array(a, dtype=float) if not isinstance(a, dict) else np.array(a['m'], dtype=float).reshape(len(a['m']), a['k']) for a in case['arrays']]
@@ -425,7 +475,7 @@ def run_numpy(case, ctx):
 
 
 def run_case(case, ctx):
-    return {'sync': run_sync, 'presync': run_presync, 'numpy': run_numpy}[case['kind']](case, ctx)
+    return {'sync': run_sync, 'presync': run_presync, 'numpy': run_numpy, 'presync_cols': run_presync_cols}[case['kind']](case, ctx)
 
 
 # ------------------------------------------------------------------ generators
@@ -447,6 +497,11 @@ def gen_ts(rng, ids, multi_ok, rowcomplete, grid=12, intcols_ok=False):
         ts = list(range(a, b + 1))
     else:
         ts = sorted(rng.sample(range(grid), rng.randint(1, grid)))
+    freq = None
+    if rng.random() < 0.15:
+        freq = rng.choice([1, 2, 2, 3])
+        a = rng.randrange(freq + 1)
+        ts = list(range(a, grid, freq))[:rng.randint(1, grid)]
     k = rng.choice([1, 1, 1, 2, 3]) if multi_ok else 1
     pn = rng.choice([0, 0.15, 0.4])
     cols = [[None if rng.random() < pn else ids() for _ in ts] for _ in range(k)]
@@ -456,6 +511,8 @@ def gen_ts(rng, ids, multi_ok, rowcomplete, grid=12, intcols_ok=False):
                 for c in cols:
                     c[i] = None
     spec = {'ts': ts, 'cols': cols}
+    if freq:
+        spec['freq'] = freq
     if rng.random() < 0.5:
         spec['share_index'] = True
     if k > 1:
@@ -520,6 +577,21 @@ def gen_case(rng):
                         if rng.random() < 0.3:
                             a_[i_] = float('nan')
         return case
+    if r < 0.3 and rng.random() < 0.2:
+        # two or three complete multi-column frames for a column-wise presync function: labels from one pool, each frame in its own order
+        nf = rng.choice([2, 2, 3])
+        pool = rng.choice([['p', 'q'], ['p', 'q', 'r'], ['p', 'q', 'r', 's']])
+        same_set = rng.random() < 0.6
+        frames = []
+        for _ in range(nf):
+            names = list(pool) if same_set else rng.sample(pool, rng.randint(2, len(pool)))
+            if rng.random() < 0.7:
+                rng.shuffle(names)
+            a = rng.randrange(6); b = rng.randrange(a + 2, 12)
+            ts = list(range(a, b + 1)) if rng.random() < 0.5 else sorted(rng.sample(range(12), rng.randint(3, 10)))
+            frames.append({'ts': ts, 'cols': [[ids() if rng.random() > 0.1 else None for _ in ts] for _ in names], 'names': names, 'series': False})
+        if len(set.intersection(*[set(f_['names']) for f_ in frames])) >= 1:
+            return {'kind': 'presync_cols', 'frames': frames, 'intraday': intraday, 'by_kw': rng.random() < 0.3}
     if r < 0.3:
         nargs = rng.randint(1, 3)
         items = [gen_container(rng, ids, rng.choice([1, 2, 3]), False, True) for _ in range(3)]
@@ -539,6 +611,8 @@ def gen_case(rng):
                 c_['kwargs'] = {}
         if not c_['kwargs'] and rng.random() < 0.5 and c_['form'] != 'call_kw':
             c_['variadic'] = rng.choice(['all', 'rest'])
+        if c_['form'] == 'ctor' and policy != 'explicit' and rng.random() < 0.25:
+            c_['fill_off_at_call'] = rng.choice(['ffill', 'bfill'])
         return c_
     multi = rng.random() < 0.35
     api = rng.choice(['df_sync', 'df_reindex']) if not multi else 'df_sync'
